@@ -327,6 +327,15 @@ fn handle_established(
                     };
                 }
             }
+            // An ACK that reaches us while we are blocked on a closed
+            // window is the peer answering a probe (or announcing the
+            // re-opened window): it is alive, so the time spent waiting
+            // does not count towards the retransmit budget — neither
+            // for further probing nor for the data sent next.
+            if zero_window_blocked(tcb) {
+                tcb.retx_attempts = 0;
+                tcb.egress_since_ack = 0;
+            }
             tcb.snd_wnd = s.window;
             wake_write = true;
         }
@@ -375,6 +384,14 @@ fn handle_established(
         // retransmitting into silence until it gives up.
         let occupies_seq = !s.payload.is_empty() || s.flags.fin || s.flags.syn;
         if occupies_seq && !send_ack {
+            send_ack = true;
+        }
+        // Same rule for an empty segment whose sequence number lies
+        // before `rcv_nxt`: that is what a zero-window probe looks like
+        // (see `check_retx`), and the answer tells the prober our
+        // current window.
+        let tcb = st.tcb.as_ref().unwrap();
+        if !occupies_seq && (s.seq.wrapping_sub(tcb.rcv_nxt) as i32) < 0 {
             send_ack = true;
         }
 
@@ -1038,13 +1055,18 @@ pub(super) fn poll_recv(
         }
         let local = bound_endpoint(st);
         let tcb = st.tcb.as_mut().unwrap();
+        // The last window we advertised was zero iff the buffer was
+        // full: the peer has stopped sending and learns about freed
+        // space only from us.
+        let window_was_closed = tcb.recv_buf.len() >= recv_cap;
         let n = tcb.recv_buf.len().min(buf.len());
         let drained = tcb.recv_buf.split_to(n);
         buf[..n].copy_from_slice(&drained);
         // Window-update trigger: if we freed ≥ half the recv cap,
         // advertise. Crude SWS avoidance; refine alongside real flow
-        // control.
-        let should_update = n >= recv_cap / 2;
+        // control. A window that re-opens from zero is always
+        // advertised, however small the read.
+        let should_update = n >= recv_cap / 2 || (window_was_closed && n > 0);
         (n, should_update, local, peer)
     };
 
@@ -1145,7 +1167,7 @@ pub(super) fn check_retx(k: &mut Kernel) {
                     | TcpState::Closing
                     | TcpState::LastAck
             ) && tcb.snd_una != tcb.snd_nxt;
-            if handshake || data {
+            if handshake || data || zero_window_blocked(tcb) {
                 Some(fd)
             } else {
                 None
@@ -1155,6 +1177,7 @@ pub(super) fn check_retx(k: &mut Kernel) {
 
     let mut abort: Vec<Fd> = Vec::new();
     let mut resend_handshake: Vec<Fd> = Vec::new();
+    let mut probe: Vec<Fd> = Vec::new();
     for fd in candidates {
         let tcb = k.sockets.get_mut(fd).unwrap().tcb.as_mut().unwrap();
         tcb.egress_since_ack += 1;
@@ -1167,6 +1190,10 @@ pub(super) fn check_retx(k: &mut Kernel) {
         }
         tcb.retx_attempts += 1;
         tcb.egress_since_ack = 0;
+        if zero_window_blocked(tcb) {
+            probe.push(fd);
+            continue;
+        }
         match tcb.state {
             TcpState::SynSent | TcpState::SynReceived => resend_handshake.push(fd),
             _ => {
@@ -1176,15 +1203,70 @@ pub(super) fn check_retx(k: &mut Kernel) {
                 // without an out-of-order receive queue on the peer
                 // side.
                 tcb.snd_nxt = tcb.snd_una;
+                if tcb.snd_wnd == 0 {
+                    // What was in flight went beyond a window the
+                    // peer has since closed: refused, not lost.
+                    // Nothing is re-emitted now; zero-window probing
+                    // takes over with a budget of its own.
+                    tcb.retx_attempts = 0;
+                }
             }
         }
     }
     for fd in resend_handshake {
         emit_handshake(k, fd);
     }
+    for fd in probe {
+        emit_window_probe(k, fd);
+    }
     for fd in abort {
         abort_timed_out(k, fd);
     }
+}
+
+/// The peer advertised a zero window, nothing is in flight, and we
+/// still have bytes (or a FIN) to send. Nothing the peer receives from
+/// us will make it speak again, and its window update may have been
+/// lost — so this state needs a timer of its own (the persist timer of
+/// real TCP), driven by the same egress counter as retransmission.
+fn zero_window_blocked(tcb: &Tcb) -> bool {
+    matches!(
+        tcb.state,
+        TcpState::Established
+            | TcpState::CloseWait
+            | TcpState::FinWait1
+            | TcpState::Closing
+            | TcpState::LastAck
+    ) && tcb.snd_una == tcb.snd_nxt
+        && tcb.snd_wnd == 0
+        && (!tcb.send_buf.is_empty() || tcb.fin_seq == Some(tcb.snd_nxt))
+}
+
+/// Zero-window probe: an empty segment one sequence number *before*
+/// `snd_nxt`. The peer cannot accept it and answers with an ACK that
+/// carries its current window (see `handle_established`). It occupies
+/// no sequence space, so nothing is ever in flight beyond the
+/// advertised window. Unanswered probes use up the retransmit budget
+/// like any other segment; answered ones reset it.
+fn emit_window_probe(k: &mut Kernel, fd: Fd) {
+    let recv_cap = k.recv_buf_cap;
+    let st = k.lookup(fd).expect("probe candidate");
+    let tcb = st.tcb.as_ref().expect("probe candidate has tcb");
+    let local = bound_endpoint(st);
+    let remote = tcb.peer;
+    let seg = TcpSegment {
+        src_port: local.port(),
+        dst_port: remote.port(),
+        seq: tcb.snd_nxt.wrapping_sub(1),
+        ack: tcb.rcv_nxt,
+        flags: TcpFlags {
+            ack: true,
+            ..TcpFlags::default()
+        },
+        window: advertised_window(recv_cap, tcb.recv_buf.len()),
+        payload: Bytes::new(),
+    };
+    emit(k, local, remote, seg);
 }
 
 /// Re-emit the SYN (client, `SynSent`) or SYN-ACK (server,
